@@ -153,6 +153,23 @@ Proof.
       * apply (Hlinks i e1 e2 H1 H2).
 Qed.
 
+(* what acceptance of a run means, as propositions: every event is accepted, the first one starts
+   from c0, consecutive events share a state, the last one ends in cn *)
+Lemma check_run_structure c0 evs cn : check_run c0 evs cn = true ->
+  Forall (fun e => check_event e = true) evs /\
+  match evs with
+  | [] => cn = c0
+  | e :: _ => ev_before e = c0 /\ ev_after (last evs e) = cn
+  end /\
+  (forall i e e', nth_error evs i = Some e -> nth_error evs (S i) = Some e' -> ev_before e' = ev_after e) /\
+  wfb cn = true /\ run_arity_okb cn = true.
+Proof.
+  unfold check_run. intros H.
+  apply andb_true_iff in H. destruct H as [H Ha].
+  apply andb_true_iff in H. destruct H as [Hc Hw].
+  destruct (check_chain_links _ _ _ Hc) as (H1 & H2 & H3). repeat (split; [assumption|]). exact Ha.
+Qed.
+
 (* ---- semantic form: no hypothesis on c0 beyond acceptance of the run ---- *)
 Theorem validated_run_sem c0 evs cn :
   check_run c0 evs cn = true ->
